@@ -63,6 +63,7 @@ BREAK = {
         (['C04.h'], M, "packet.bind_layers(MessageHead, TransferAck, msg_id=0x2)\npacket.bind_layers(MessageHead, TransferRefuse, msg_id=0x3)", "packet.bind_layers(MessageHead, TransferAck, msg_id=0x3)\npacket.bind_layers(MessageHead, TransferRefuse, msg_id=0x2)"),
     ],
     'C05': [
+        (['C05.e'], SEC, "        if ctr.bundle.primary.bundle_flags & PrimaryBlock.Flag.IS_FRAGMENT:\n            # a fragment carries the security blocks of the original bundle\n            return\n\n        # No configuration here yet\n        for ctx in self._contexts.values():\n            ctx.apply_bib", "        # No configuration here yet\n        for ctx in self._contexts.values():\n            ctx.apply_bib"),
         (['C05.a'], FR, "            and orig_size > mtu\n", "            and orig_size >= 0\n"),
         (['C05.b'], FR, "            frag_offset += frag_size\n", "            frag_offset += frag_size + 1\n"),
         (['C05.c'], FR, "            fctr.bundle.primary.total_app_data_len = payload_size", "            fctr.bundle.primary.total_app_data_len = frag_size"),
@@ -72,6 +73,7 @@ BREAK = {
         (['C05.g'], FR, "        pyld_blk.remove_payload()\n", ""),
     ],
     'C06': [
+        (['C06.d'], FR, "            rctr.bundle.primary.update_crc()\n", "            rctr.bundle.primary.crc_type = AbstractBlock.CrcType.NONE\n            rctr.bundle.primary.crc_value = None\n"),
         (['C06.b'], FR, "        if reassm.valid == reassm.total_valid:", "        if reassm.valid.upper == reassm.total_valid.upper:"),
         (['C06.c'], FR, "        reassm.valid |= portion.closedopen(frag_offset, end_ix)", "        reassm.valid |= portion.closedopen(0, end_ix)"),
         (['C06.d'], FR, "        ctr.actions.clear()\n        return True", "        return True"),
@@ -110,14 +112,20 @@ BREAK = {
         (['C09.g'], 'tcpcl/agent.py', "        for hdl in tuple(self._handlers):\n            hdl.close()", "        for hdl in self._handlers:\n            hdl.close()"),
     ],
     'C10': [
-        (['C10.b'], BU, "        if pri.bundle_flags & PrimaryBlock.Flag.IS_FRAGMENT:\n            ident += [", "        if True:\n            ident += ["),
+        (['C10.b'], BU, "        if pri.bundle_flags & PrimaryBlock.Flag.IS_FRAGMENT:\n            # fragments with the same offset can differ in extent\n", "        if True:\n"),
+        (['C10.b'], BU, "                len(pyld_data) if pyld_data is not None else 0,\n", ""),
         (['C10.c'], BA, "            if match is not None:\n                found = item\n                break\n        if found:\n            self._logger.debug('Route found: %s', found)\n            ctr.record_action(found.action)", "            if match is not None:\n                found = item\n        if found:\n            self._logger.debug('Route found: %s', found)\n            ctr.record_action(found.action)"),
         (['C10.d'], 'bp/app/safe.py', "        if not self._recv_for(ctr, self._safe.own_eid):\n            return False\n", ""),
         (['C10.e'], BA, "        ctr.record_action('receive')\n", "        ctr.actions['receive'] = None\n"),
     ],
     'C11': [
         (['C11.b'], BA, "                # re-encode the block data from the updated payload\n                blk.delfieldval('btsd')\n", ""),
-        (['C11.c'], BA, "            for blk in list(ctr.block_type(PreviousNodeBlock)):", "            for blk in ctr.block_type(PreviousNodeBlock):"),
+        (['C11.c'], BA, "            for blk in list(ctr.block_type(6)):", "            for blk in ctr.block_type(6):"),
+        (['C11.c'], BA, "            for blk in list(ctr.block_type(6)):", "            for blk in list(ctr.block_type(PreviousNodeBlock)):"),
+        (['C11.c'], BA, "                age = max(0, now_dtntime - create_dtntime)", "                age = now_dtntime - create_dtntime"),
+        (['C11.c'], BA, "            if create_dtntime == 0:\n                # the received age is all that is known about the bundle\n                age_blks = age_blks[1:]\n", ""),
+        (['C11.d'], BU, "            blk.setfieldval('block_num', blk_num)\n", "            blk.overloaded_fields['block_num'] = blk_num\n"),
+        (['C11.a'], FR, "            fctr.actions = dict(ctr.actions)\n", ""),
         (['C11.c'], BA, "                blk.payload.count += 1", "                blk.payload.count += 2"),
         (['C11.d'], BU, "        self.bundle.blocks.insert(-1, blk)", "        self.bundle.blocks.append(blk)"),
         (['C11.a'], BA, "        if 'receive' not in ctr.actions:\n            # defaults only apply to bundles originated here\n            self._apply_primary(ctr)", "        self._apply_primary(ctr)"),
@@ -125,7 +133,10 @@ BREAK = {
     'C12': [
         (['C12.a'], SEC, "            order=19,", "            order=31,"),
         (['C12.b'], SEC, "            LOGGER.warning('Deleting bundle with BCB failure codes %s', failure)\n            del ctr.actions['deliver']\n", "            LOGGER.warning('Deleting bundle with BCB failure codes %s', failure)\n"),
-        (['C12.c'], BA, "                self._logger.error('Step %5.1f failed with exception: %s', step.order, err)\n                self._logger.debug('%s', traceback.format_exc())\n                break\n\n        if 'delete' in ctr.actions:", "                self._logger.error('Step %5.1f failed with exception: %s', step.order, err)\n                self._logger.debug('%s', traceback.format_exc())\n\n        if 'delete' in ctr.actions:"),
+        (['C12.c'], BA, "                ctr.record_action('delete')\n                break\n\n        if 'delete' in ctr.actions:", "                ctr.record_action('delete')\n\n        if 'delete' in ctr.actions:"),
+        (['C12.b'], SEC, "        integ_blocks = ctr.block_type(11)", "        integ_blocks = ctr.block_type(BlockIntegrityBlock)"),
+        (['C12.b'], SEC, "            if not isinstance(bib.payload, BlockIntegrityBlock):\n                LOGGER.warning('Undecodable BIB in block num %s', bib.block_num)\n                failure.append(StatusReport.ReasonCode.FAILED_SEC)\n                continue\n", ""),
+        (['C12.d'], SEC, "        for param in self.sec_blk.payload.parameters or []:", "        for param in self.sec_blk.payload.parameters:"),
         (['C12.e'], SEC, "        for bib in list(integ_blocks):", "        for bib in integ_blocks:"),
         (['C12.f'], SEC, "                    LOGGER.error('Failed to verify BIB in block num %s with context %s: %s', bib.block_num, bib.payload.context_id, err)\n                    result = StatusReport.ReasonCode.FAILED_SEC", "                    result = 'Failed to verify BIB: {}'.format(err)"),
     ],
@@ -180,6 +191,8 @@ BREAK = {
         (['C18.a'], UA, "            node_id = str(extmap.get(ExtensionKey.SENDER_NODEID, ''))", "            node_id = extmap.get(ExtensionKey.SENDER_NODEID, '')"),
     ],
     'C19': [
+        (['C19.e'], BA, "            # the routing decision was not carried out\n            ctr.actions.pop('forward', None)\n            ctr.record_action('delete', StatusReport.ReasonCode.NO_ROUTE)", "            ctr.record_action('delete', StatusReport.ReasonCode.NO_ROUTE)"),
+        (['C19.e'], BA, "                ctr.actions.pop('deliver', None)\n                ctr.actions.pop('forward', None)\n                ctr.record_action('delete')\n", ""),
         (['C19.e'], BA, "            self._finish_bundle(ctr)\n            return\n\n        if 'deliver' in ctr.actions:", "            self._finish_bundle(ctr)\n\n        if 'deliver' in ctr.actions:"),
         (['C19.f'], SEC, "                    LOGGER.error('Failed to verify BIB in block num %s with context %s: %s', bib.block_num, bib.payload.context_id, err)\n                    result = StatusReport.ReasonCode.FAILED_SEC", "                    result = 'Failed to verify BIB: {}'.format(err)"),
         (['C19.a'], BU, "            'delete': PrimaryBlock.Flag.REQ_DELETION_REPORT,\n            'deliver': PrimaryBlock.Flag.REQ_DELIVERY_REPORT,", "            'delete': PrimaryBlock.Flag.REQ_DELIVERY_REPORT,\n            'deliver': PrimaryBlock.Flag.REQ_DELETION_REPORT,"),
@@ -194,6 +207,8 @@ BREAK = {
         (['C20.e'], BT, "                    if xfer.got_end is not None:", "                    if xfer.got_end:"),
     ],
     'C02': [
+        (['C02.d'], BN, "        if flags & PrimaryBlock.Flag.PAYLOAD_ADMIN and not flags & PrimaryBlock.Flag.IS_FRAGMENT:", "        if flags & PrimaryBlock.Flag.PAYLOAD_ADMIN:"),
+        (['C02.d'], BN, "                    try:\n                        pay = AdminRecord(blk_data)\n                    except Exception:\n                        # a record which this node cannot interpret\n                        # stays opaque block data\n                        continue\n", "                    pay = AdminRecord(blk_data)\n"),
         (['C02.a'], BL, "        UintField('lifetime', default=0),\n", "        UintField('lifetime', default=0),\n        UintField('spare', default=0),\n"),
         (['C02.c'], 'scapy_cbor/packets.py', "            s = b'\\x9f' + s + b'\\xff'", "            s = b'\\x9f' + s"),
         (['C02.d'], BN, "    def self_build(self, field_pos_list=None):\n        # Special handling for admin payload\n        self._update_from_admin()\n", "    def self_build(self, field_pos_list=None):\n"),
